@@ -118,6 +118,7 @@ def run_lease(idx, rng, tier):
     from ..pair import trace_excerpt
     from . import c14
     desc = c14.gen_requester(rng)
+    desc['role'] = 'c'
     for ev in desc['timeline']:
         if ev['kind'] == 'req' and ev['model'] in ('stream', 'channel'):
             ev['post'] = rng.choice([None, 'request', 'cancel'])
